@@ -365,6 +365,10 @@ func handle(q req) resp {
 
 func main() {
 	logrus.SetOutput(io.Discard)
+	if len(os.Args) > 1 && os.Args[1] == "concurrent" {
+		concurrentMain()
+		return
+	}
 	if len(os.Args) > 1 && os.Args[1] == "stress" {
 		stress()
 		return
